@@ -92,7 +92,7 @@ func runCase(t *testing.T, run *core.Run, name string, idx int, rng *rand.Rand) 
 		}
 		return true
 	}
-	rounds := core.Pick(3, 12)
+	rounds := core.Pick(3, 8)
 	for r := 0; r < rounds; r++ {
 		for _, s := range senders {
 			for _, memo := range []string{"", "note"} {
@@ -204,7 +204,7 @@ func TestCheck(t *testing.T) {
 	defer run.Finish()
 	run.MinDistinct = 20
 	run.Assume("Ethereum-wrapped (RLP / RLP.V2) transactions and the lower edge of the creation-height window (needs > 4320 blocks) are not generated; signature schemes are trusted")
-	n := core.Pick(3, 40)
+	n := core.Pick(3, 30)
 	run.Sharded(n, func(i int) {
 		name := fmt.Sprintf("replay/%d", i)
 		if run.Want(name) {
